@@ -6,6 +6,7 @@
    statements hold after ANY label list, i.e. any number of consecutive reconnect cycles. *)
 From Coq Require Import List Bool Arith.
 Require Import GV.Gen.LifecycleRules GV.Model.Lifecycle GV.Proofs.LifecycleP GV.Model.Ledger GV.Proofs.LedgerP.
+Require GV.Model.LifecycleI GV.Proofs.LifecycleIP.
 Import ListNotations.
 
 (* every open endpoint and every live task group belongs to the discovery in progress, the manager's current spa object or its
@@ -37,6 +38,28 @@ Proof. exact no_ext_without_spa. Qed.
    spa_silent_after_disconnect); without that fact the event goes through the switch and this theorem fails *)
 Theorem c10_late_events_are_inert : forall c ls x, runL (entered c, r0) ls = Some x -> late_inert x = true.
 Proof. exact late_events_inert. Qed.
+
+(* ---------- resets injected at the await points INSIDE another handler (Model/LifecycleI.v: the pump, one task of the connection
+   and one user task inside the manager at once, the client's handler suspended at every delivery) ---------- *)
+(* as long as a task that was started is resumed to its end before anything else happens - i.e. on the big-step LTS above - no spa
+   object is ever dropped without being disconnected: for every reachable state and every label *)
+Theorem c10_sequential_never_drops_a_spa :
+  forallb (fun s => forallb (fun l => match LifecycleIP.to_completion (LifecycleIP.embed s) l with Some (i, _) => negb (LifecycleI.v_leak i) | None => true end)
+                            (Ext SPA_MAN_ENTER :: all_labels)) reach = true.
+Proof. exact LifecycleIP.big_step_never_drops_a_spa. Qed.
+(* under every schedule: whenever nothing is inside the manager and no object has been dropped, the endpoint of the connection is open
+   exactly when the manager references a spa *)
+Theorem c10_interleaved_ledger_accounted : forall c ls s, LifecycleIP.irun (LifecycleI.ientered c) ls = Some s -> LifecycleIP.ii_ledger s = true.
+Proof. intros c ls s R. exact (LifecycleIP.iinv_all LifecycleIP.ii_ledger LifecycleIP.all_ii_ledger c ls s R). Qed.
+(* but 'every endpoint of the abandoned connection is closed' is FALSE when a reset lands inside another handler (finding K11): two
+   machine-checked schedules after which a spa object with an open endpoint has been dropped (self._spa cleared / overwritten) without
+   disconnect() ever being called on it - each minimal: one step earlier nothing has been dropped *)
+Theorem c10_every_endpoint_closed_refuted_under_interleaving :
+  option_map LifecycleI.v_leak (LifecycleIP.irun (LifecycleI.ientered true) LifecycleIP.w_k11_stale_reset) = Some true /\
+  option_map LifecycleI.v_leak (LifecycleIP.irun (LifecycleI.ientered true) (removelast LifecycleIP.w_k11_stale_reset)) = Some false /\
+  option_map LifecycleI.v_leak (LifecycleIP.irun (LifecycleI.ientered true) LifecycleIP.w_k11_overwrite) = Some true /\
+  option_map LifecycleI.v_leak (LifecycleIP.irun (LifecycleI.ientered true) (removelast LifecycleIP.w_k11_overwrite)) = Some false.
+Proof. exact LifecycleIP.k11_witnesses. Qed.
 
 Example c10_nonvacuous :
   existsb (fun x => match ppc (fst x) with PConn 2 => true | _ => false end) reachL = true /\
